@@ -63,6 +63,8 @@ def run(ctx):
     ctx.not_decided += ["numeric tolerance (6-digit rounding of tabulated thirds)",
                         "the re-indexing step F(hR') = F(h) e^{-2 pi i h.t'} is the paper consequence of the term laws and C04"]
     ctx.assumptions += ["C04 (the tables are groups)", "C01 (sintl is even in hkl)", "numpy exp, cos, sin, dot"]
+    from xfabsa import numeric as _N2
+    _N2.hazard_rule(ctx, 'C07')
     return ("StructureFactor evaluated by E3 on symbolic operations, positions, tensors and hkl equals, term for term, the sum "
             "whose terms carry the transformation laws R x + t, h.r and R beta R^T; loops cover every atom and operation; "
             "Friedel symmetry of the normal form.")
